@@ -11,10 +11,12 @@ import (
 	"crypto/ecdsa"
 	"crypto/ed25519"
 	"crypto/elliptic"
+	"encoding/base64"
 	"encoding/json"
 	"errors"
 	"fmt"
 	"math/big"
+	"strings"
 
 	"github.com/btcsuite/btcd/btcec"
 
@@ -56,6 +58,13 @@ func verifyEd25519Signature(jwk *jws.JWK, signature, msg []byte) error {
 
 // GetED25519PublicKey retunns ed25519 public key.
 func GetED25519PublicKey(jwk *jws.JWK) (ed25519.PublicKey, error) {
+	// the JOSE library copies the first 32 bytes of x (and zero-pads a shorter one), so the length
+	// of the coordinate has to be checked here
+	x, err := base64.RawURLEncoding.DecodeString(strings.TrimRight(jwk.X, "="))
+	if err != nil || len(x) != ed25519.PublicKeySize {
+		return nil, errors.New("ed25519: invalid key")
+	}
+
 	jsonBytes, err := json.Marshal(jwk)
 	if err != nil {
 		return nil, err
